@@ -251,7 +251,22 @@ impl Ctx {
     }
   }
 
+  /// A JSON value that is not an RFC 3339 string offered to the serde path: refusing is fine; whatever is accepted is a
+  /// timestamp like any other (in range, formattable, round-tripping).
+  fn json_non_string_case(&mut self, text: &str) {
+    self.rep.eval();
+    match catch(|| Timestamp::from_json(text)) {
+      Err(p) => self.rep.violation(&format!("from_json-panic@{}", p.file_only()), &p.msg, json!({"json":text})),
+      Ok(Err(_)) => self.rep.inc("json_non_string_rejected"),
+      Ok(Ok(ts)) => {
+        self.rep.inc("json_non_string_accepted");
+        self.check_accepted("json-non-string", text, ts);
+      }
+    }
+  }
+
   fn unix_case(&mut self, s: i64) {
+    self.json_non_string_case(&s.to_string());
     self.rep.eval();
     match catch(|| Timestamp::from_unix(s)) {
       Err(p) => self.rep.violation(&format!("from_unix-panic@{}", p.file_only()), &p.msg, json!({"unix":s})),
@@ -340,6 +355,11 @@ fn durations(rng: &mut Rng) -> Vec<(Duration, i64, String)> {
   }
   v
 }
+
+const JSON_NON_STRINGS: &[&str] = &[
+  "0", "-1", "1.5", "1e9", "-62167219200", "-62167219201", "253402300799", "253402300800", "-377705116800", "-377705116801", "9223372036854775807",
+  "-9223372036854775808", "1e30", "null", "true", "[]", "[\"2020-01-01T00:00:00Z\"]", "{}", "{\"secs\":0}", "[0,0]", "[2020,1]", "[-1,1,0,0,0,0,0,0,0]",
+];
 
 fn main() {
   let args = Args::parse();
@@ -484,6 +504,11 @@ fn main() {
       continue;
     }
     cx.unix_case(*s);
+  }
+  if args.shard == 0 {
+    for t in JSON_NON_STRINGS {
+      cx.json_non_string_case(t);
+    }
   }
 
   // ---- arithmetic
